@@ -19,7 +19,7 @@ callees are resolved by the real overload resolution.
 import collections
 import re
 
-from rkstatic.x_vecexpr import (COMPS, FnView, Formula, Inliner, Poly, calls_in, commute, flatten, poly, show, strip_casts, subst,
+from rkstatic.x_vecexpr import (COMPS, FnView, Formula, Inliner, Poly, calls_in, commute, fold_consts, flatten, poly, show, strip_casts, subst,
                                 tclean, tkey, tparse, unknowns, vecshape)
 
 LEVEL = 'other'
@@ -837,12 +837,52 @@ def fam_ctor(res, s, v):
             res.und(R5, 'field %s initialised twice' % fld)
             return
         got[fld] = t
+    bulk = None
     for st in v.body():
         if st[0] == 'expr' and st[1][0] == 'asg' and st[1][1] == '=' and st[1][2][0] == 'm' and st[1][2][1] == ('this',):
             got[st[1][2][2]] = st[1][3]
+        elif st[0] == 'expr' and st[1][0] == 'call' and st[1][1] in ('memcpy', 'memmove', '__builtin_memcpy') and len(st[1][2]) == 3 \
+                and len(s.params) == 1 and s.params[0]['k'] == 'ptr':
+            dst, src, size = (strip_casts(x, pred=lambda ty: True) for x in st[1][2])
+            size = fold_consts(size)
+            if dst not in (('this',), ('u', '&', ('m', ('this',), 'x'))) or src != ('p', 0):
+                res.und(R5, 'constructor: bulk copy with unrecognised source/destination: %s' % show(st[1], names))
+                return
+            bulk = (size, st[1])
         else:
-            res.und(R5, 'constructor body statement not recognised: %s' % str(st[0]))
+            res.und(R5, 'constructor body statement not recognised: %s' % (show(st[1], names) if len(st) > 1 and isinstance(st[1], tuple) else str(st[0])))
             return
+    if bulk is not None:
+        # construction from a pointer reads exactly the N source elements [0, N)
+        size, call = bulk
+        padded = s.shape['a'] is True
+        whole = size in (('traitof', 'sizeof', ('this',)), ('traitof', 'sizeof', ('u', '*', ('this',))))
+        if not whole and size[0] == 'traitof' and size[2][0] == 'type':
+            sh = vecshape(size[2][1])
+            whole = bool(sh) and sh['n'] == n and sh['a'] == s.shape['a']
+        exact = None
+        if whole:
+            exact = not padded
+        elif size[0] == 'lit' and getattr(v, 'elem_size', None):
+            exact = (size[1] == n * v.elem_size) if size[1] >= n * v.elem_size else None
+            if size[1] > n * v.elem_size:
+                exact = False
+        elif size[0] == 'b' and size[1] == '*':
+            fs = {size[2], size[3]}
+            lits = [x for x in fs if x[0] == 'lit']
+            others = [x for x in fs if x[0] == 'traitof' and x[1] == 'sizeof']
+            if len(lits) == 1 and len(others) == 1 and others[0][2] in (('type', 'T'), ('type', 'scalar_t'), ('m', ('this',), 'x'),
+                                                                         ('type', tclean(s.params[0]['ct']).rstrip('*').strip())):
+                exact = True if lits[0][1] == n else (False if lits[0][1] > n else None)
+        if exact is True:
+            res.ok(R5, 'pointer constructor copies exactly %d elements from the source in one block' % n)
+        elif exact is False:
+            res.bad(R5, 'constructor(pointer) copies `%s` bytes from the source: more than the %d elements of a %d-component vector '
+                        '(the %s record is larger than %d elements) - it reads source element [%d], which a %d-element array does not have' % (
+                            show(size, names), n, n, 'padded' if padded else 'vec_t', n, n, n), 'ctor-overread')
+        else:
+            res.und(R5, 'constructor(pointer): byte count of the bulk copy not recognised: %s' % show(size, names))
+        return
     # expected value of each component, from the parameter list
     exp = []
     ps = s.params
@@ -1137,7 +1177,10 @@ def _ret_fold(res, s, v, op, leaf, n, what, cast=False):
             if x[0] == 'ctor' and len(x[2]) == 1 and x[2][0][0] == 'm':
                 continue
             inner = x[2][0] if (x[0] == 'ctor' and len(x[2]) == 1) else x
-            if strip_casts(inner)[0] in ('m', 'b'):
+            si = strip_casts(inner)
+            narrow_fold = (si[0] == 'mcall' and si[1] == 'product' and si[2] == ('this',) and not si[3]) or \
+                          (si[0] == 'call' and si[1] == 'reduce_mul' and si[2] == (('this',),))
+            if si[0] in ('m', 'b') or narrow_fold:
                 res.bad(R3, '%s: `%s` is multiplied in the narrow element type (each component must be converted to '
                             'size_t before the product is formed)' % (what, show(inner, s.names)), 'fold-narrow')
             else:
@@ -1260,6 +1303,9 @@ def analyse(ctx, tu, label='', ir=None):
         if level == 'typed' and pat is not f:
             covered.add(pat['id'])
         v = FnView(tu, f)
+        rrec = tu.records_by_type.get(f.get('rect')) if f.get('rect') else None
+        if rrec and len(rrec.get('fields', ())) > 1:
+            v.elem_size = rrec['fields'][1]['off'] - rrec['fields'][0]['off']
         res = Res()
         inl = None
         try:
@@ -1358,6 +1404,39 @@ def check_layout(ctx, tu):
     return n
 
 
+def _expand_bulk(irnorm, X, Y):
+    """a block copy `out[o..+n] = copy(src, so, n)` on one side and element stores on the other are the same thing when the
+    elements tile the block exactly: rewrite the block slot of X as the element slots Y uses (values src[so + k - o])"""
+    out = dict(X)
+    for slot, cases in X.items():
+        m = re.match(r'^(.+)\[(\d+)\.\.\+(\d+)\]$', slot)
+        if not m or len(cases) != 1 or cases[0][0]:
+            continue
+        t = cases[0][1]
+        if not irnorm.is_app(t, 'copy') or len(t.args) != 3:
+            continue
+        base, o, nbytes = m.group(1), int(m.group(2)), int(m.group(3))
+        try:
+            src, so = str(t.args[0]), int(t.args[1])
+        except (TypeError, ValueError):
+            continue
+        offs = []
+        for ys in Y:
+            my = re.match(r'^(.+)\[(\d+)\]$', ys)
+            if my and my.group(1) == base and o <= int(my.group(2)) < o + nbytes:
+                offs.append(int(my.group(2)))
+        offs.sort()
+        if not offs or nbytes % len(offs):
+            continue
+        el = nbytes // len(offs)
+        if offs != [o + i * el for i in range(len(offs))]:
+            continue
+        del out[slot]
+        for k in offs:
+            out['%s[%d]' % (base, k)] = [((), irnorm.sym('%s[%d]' % (src, so + k - o)))]
+    return out
+
+
 def _ndelta(cases):
     """number of distinct rounding symbols in the guarded terms of one output slot"""
     names = set()
@@ -1402,6 +1481,11 @@ def ir_identities(ctx, rule, unit, anchor_file, minimum, precondition=None, sing
             continue
         n += 1
         key = '%s|%s|%s|' % (rule, anchor_file, ident)
+        A, B = _expand_bulk(irnorm, A, B), _expand_bulk(irnorm, B, A)
+        if B and not A:
+            ctx.undecided(rule, inst, 'the API side has no observable store in the IR summary (copy of a partially initialised '
+                                      'object); nothing to compare with the definition', loc)
+            continue
         if set(A) != set(B):
             ctx.violation(rule, inst, 'the API side writes %s, the definition writes %s' % (sorted(A), sorted(B)), loc, key=key + 'slots')
             continue
